@@ -60,7 +60,7 @@ def gen_sort_exhaustive(rng, tier):
                 for t in (-2.0, 0.5, 2.0, 1e300):
                     ops.append(('search_dbl %s ' % hexd(t) + xd).strip())
     # `same` on all pairs of arrays of equal length <= 3 over a 4-letter alphabet
-    for n in range(1, 4):
+    for n in range(0, 4):
         arrs = list(itertools.product([INT_MIN, -1, 0, 7], repeat=n))
         for a in arrs:
             for b in arrs:
@@ -96,10 +96,9 @@ def oracle_sort(ops, impl):
                         bad.append((i, '%s: original[sorted_index] is not non-decreasing: %s -> %s' % (op, o, r)))
             elif op == 'unique':
                 x = _ints(w[1:])
-                if len(x) >= 1:
-                    exp = sorted(set(x))
-                    if rw[0] != 'ok' or int(rw[1]) != len(exp) or _ints(rw[2:]) != exp:
-                        bad.append((i, 'unique: not the sorted set of the input: %s -> %s' % (o, r)))
+                exp = sorted(set(x))      # every length, the empty list included (nunique = 0)
+                if rw[0] != 'ok' or int(rw[1]) != len(exp) or _ints(rw[2:]) != exp:
+                    bad.append((i, 'unique: not the sorted set of the input: %s -> %s' % (o, r)))
             elif op == 'same':
                 n = int(w[1])
                 a, b = _ints(w[2:2 + n]), _ints(w[2 + n:])
